@@ -33,7 +33,7 @@ from ..util import data, Rng, pick_size
 
 SWEEP_OPS = ["hash_oneshot", "hash_life", "scrypt", "bcrypt", "pkcs1_15", "oaep", "strxor", "ec_point", "ec_sign", "eddsa", "modexp",
              "monty_mult", "cpuid", "poly1305", "dh", "hash_pbkdf2", "ed_point", "x_point", "aes_short", "ocb_tag", "keccak_squeeze", "blake2_params",
-             "cfb_badseg", "mixed_curves", "ecb_partial", "ctr_layouts", "ctr_layouts", "strided", "strided", "strxor_tiny", "ctor_refused", "ctor_refused", "key_sizes", "key_sizes"]
+             "cfb_badseg", "mixed_curves", "ecb_partial", "ctr_layouts", "ctr_layouts", "strided", "strided", "strxor_tiny", "ctor_refused", "ctor_refused", "key_sizes", "key_sizes", "ec_scalar_sizes", "ec_scalar_sizes"]
 WS_CURVES = ["p192", "p224", "p256", "p384", "p521"]
 
 
@@ -440,7 +440,7 @@ class Machine(object):
             ob = F.OutBuf(n, ["bytearray", "mv_rw", "mv_off"][salt % 3], salt)
             strxor(a.obj, b.obj, output=ob.obj)
             return strxor_c(a.obj, salt, output=None)
-        if kind in ("ec_point", "ec_sign", "ed_point", "x_point", "eddsa", "dh", "mixed_curves"):
+        if kind in ("ec_point", "ec_sign", "ed_point", "x_point", "eddsa", "dh", "mixed_curves", "ec_scalar_sizes"):
             return self._ec_op(kind, seed, n, salt, live)
         if kind == "modexp":
             from Crypto.Math._IntegerCustom import IntegerCustom
@@ -534,6 +534,24 @@ class Machine(object):
                 del P, k
                 gc.collect()
             return (int(R.x), R == R2, int((-R2).y), (R * 0).is_point_at_infinity(), R.size_in_bytes())
+        if kind == "ec_scalar_sizes":
+            # scalars of every byte length around the size of the field, of its word-rounded allocation and well beyond,
+            # on the generator itself (fixed-base tables) and on another point: a result or ValueError, never a stray access
+            allc = WS_CURVES + ["ed25519", "ed448", "curve25519", "curve448"]
+            curve = allc[salt % 9]
+            from Crypto.PublicKey._point import _curves
+            G = _curves[{"p192": "P-192", "p224": "P-224", "p256": "P-256", "p384": "P-384", "p521": "P-521"}.get(curve, curve)].G
+            flen = G.size_in_bytes()
+            out = []
+            for P in (G, G * (3 + seed % 11)):
+                for nb in [flen - 1, flen, flen + 1, flen + 2, flen + 5, flen + 6, flen + 7, flen + 8, flen + 9, 2 * flen, 2 * flen + 1, 3 * flen + 7][(salt // 9) % 2::2] + [flen + 1 + (salt // 18) % 8]:
+                    k = int.from_bytes(b"\xff" + data(seed + nb, nb - 1), "big") if (salt >> 3) & 1 else (1 << (8 * nb)) - 1 - seed % 5
+                    try:
+                        R = P * k
+                        out.append(R.is_point_at_infinity() if curve.startswith("curve") else int(R.x) & 0xFFFF)
+                    except ValueError:
+                        out.append("refused")
+            return out
         if kind == "mixed_curves":
             allc = WS_CURVES + ["ed25519", "ed448"]
 
